@@ -53,7 +53,7 @@ PROPS = {
         'assumptions': COMMON_ASSUME + ['the stabilisation statement (second read equals first read) is decided on the implementation by streams l5-props (read-write-read) and l5-reread (over-width, blank-padded, inner-blank elements); the theorems cover: an accepted text yields a valid message, which the writer does not refuse'],
     },
     'C07': {
-        'props': ['theories/Props/C07.v'], 'deps': CODEC_DEPS + ['theories/Theory/WriterFacts.v', 'theories/Model/Writer.v', 'gen/Writer.v'],
+        'props': ['theories/Props/C07.v'], 'deps': CODEC_DEPS + ['theories/Theory/WriterFacts.v', 'theories/Model/Writer.v', 'gen/Writer.v', 'theories/Theory/FixedLength.v'],
         'streams': ['l5-props', 'l3-write'],
         'trusted_base': ['translator reading of writer.go (emission plan, Write/epilogue shape) and of the 60 Format functions', 'hand model of converters.go (Model/Converters.v)'],
         'assumptions': COMMON_ASSUME,
